@@ -190,7 +190,7 @@ Definition place_commit (cf : config) (grp : cgroup) (t p off order ts boff cnt 
   let w := match pr_ring pr with Some w => w | None => [] end in
   let '(w', appended) := ring_step (cf_min_distance cf) w (mkCommit off order ts) (commit_lag boff off) in
   let parts' := set_nth parts i (mkCpartition (Some w') (pr_owner pr) (pr_client pr)) in
-  mkCgroup (set (g_topics grp) t parts') (if appended then ts else g_last grp).
+  mkCgroup (set (g_topics grp) t parts') (if commit_stored w order then Z.max ts (g_last grp) else g_last grp).
 
 Definition place_owner (cf : config) (grp : cgroup) (t p owner client cnt : Z) : cgroup :=
   let parts := get_consumer_partition cf grp t p cnt in
@@ -343,7 +343,10 @@ Section Exec.
         | Some cl => match get (cl_consumer cl) g with
                      | None => SCrash
                      | Some grp => match remove (g_topics grp) t with
-                                   | [] => SDone (set_consumer st c cl (remove (cl_consumer cl) g)) RNone
+                                   | [] => match get (g_topics grp) t with
+                                           | Some _ => SDone (set_consumer st c cl (remove (cl_consumer cl) g)) RNone
+                                           | None => SDone (set_consumer st c cl (set (cl_consumer cl) g (mkCgroup [] (g_last grp)))) RNone
+                                           end
                                    | tops => SDone (set_consumer st c cl (set (cl_consumer cl) g (mkCgroup tops (g_last grp)))) RNone
                                    end
                      end
